@@ -30,6 +30,7 @@ import (
 	"sync"
 	"time"
 
+	"verifharness/internal/canon"
 	"verifharness/internal/gen"
 
 	smpp "github.com/M2MGateway/go-smpp"
@@ -181,6 +182,7 @@ type connRun struct {
 	parentCtx context.Context
 	cancelAll context.CancelFunc
 	seqCh     chan int32
+	rawK      map[int32]string
 }
 
 func (r *connRun) note() {
@@ -223,6 +225,9 @@ func (r *connRun) callerOf(seq int32) int {
 
 func (r *connRun) showInbound(p interface{}) string {
 	seq := pdu.ReadSequence(p)
+	if k, ok := r.rawK[seq]; ok {
+		return fmt.Sprintf("%dp%s", seq, k)
+	}
 	if d, ok := p.(*pdu.DeliverSM); ok {
 		return fmt.Sprintf("%dp%s", seq, d.ServiceType)
 	}
@@ -309,7 +314,9 @@ func (r *connRun) startCaller(i int) {
 				res = connErrClass(err)
 			} else {
 				rs = pdu.ReadSequence(resp)
+				r.mu.Lock()
 				res = "resp:" + r.showInbound(resp)
+				r.mu.Unlock()
 			}
 		case "n":
 			err := r.conn.Send(&pdu.DeliverSMResp{Header: pdu.Header{Sequence: c.seq}})
@@ -366,7 +373,7 @@ func opConn(args []string) (out string) {
 		frag = atoi(spec[1:strings.Index(spec, ";")])
 		spec = spec[strings.Index(spec, ";")+1:]
 	}
-	r := &connRun{tr: newScriptConn(frag), draining: true, drainCh: make(chan struct{}), seqCh: make(chan int32, 64)}
+	r := &connRun{tr: newScriptConn(frag), draining: true, drainCh: make(chan struct{}), seqCh: make(chan int32, 64), rawK: map[int32]string{}}
 	for _, t := range strings.Split(spec, ",") {
 		f := strings.Split(t, ":")
 		if len(f) != 3 {
@@ -457,6 +464,12 @@ func opConn(args []string) (out string) {
 				r.tr.mu.Unlock()
 				if arrived && !c.answered {
 					c.answered = true
+					r.mu.Lock()
+					if c.returned || c.kind == "n" {
+						// a response to a call that already gave up matches no outstanding request: it belongs on PDU()
+						fedUnsol = append(fedUnsol, fmt.Sprintf("%da%d", c.seq, i))
+					}
+					r.mu.Unlock()
 					switch c.kind {
 					case "s":
 						r.tr.feed(frameOf(&pdu.EnquireLinkResp{Header: pdu.Header{Sequence: c.seq}}))
@@ -483,6 +496,28 @@ func opConn(args []string) (out string) {
 			}
 			r.tr.feed(frameOf(&pdu.DeliverSM{Header: pdu.Header{Sequence: int32(atoi(f[1]))}, ServiceType: f[2]}))
 			fedUnsol = append(fedUnsol, f[1]+"p"+f[2])
+		case strings.HasPrefix(ev, "raw:"):
+			f := strings.SplitN(ev, ":", 3)
+			if len(f) != 3 {
+				return "bad-op"
+			}
+			b, err := canon.UnHex(f[2])
+			if err != nil || len(b) < 16 {
+				return "bad-op"
+			}
+			seq := int32(binary.BigEndian.Uint32(b[12:16]))
+			r.mu.Lock()
+			r.rawK[seq] = f[1]
+			r.mu.Unlock()
+			// what the property expects of this frame (classified with the library's own ReadPDU)
+			if p, err := pdu.ReadPDU(bytes.NewReader(b)); err == nil {
+				fedUnsol = append(fedUnsol, fmt.Sprintf("%dp%s", seq, f[1]))
+			} else if p != nil {
+				fedBad = append(fedBad, seq)
+			} else {
+				readEnded = true
+			}
+			r.tr.feed(b)
 		case strings.HasPrefix(ev, "bad:"):
 			f := strings.Split(ev, ":")
 			if len(f) != 3 {
@@ -500,6 +535,21 @@ func opConn(args []string) (out string) {
 		}
 		r.stabilise()
 	}
+	// Done() as it is BEFORE the application finally drains
+	done0 := false
+	select {
+	case <-r.conn.Done():
+		done0 = true
+	default:
+	}
+	closeReturned := false
+	r.mu.Lock()
+	for _, c := range r.callers {
+		if c.kind == "c" && c.returned {
+			closeReturned = true
+		}
+	}
+	r.mu.Unlock()
 	// final: the application drains, everything settles
 	r.setDrain(true)
 	r.stabilise()
@@ -607,13 +657,20 @@ func opConn(args []string) (out string) {
 	if len(r.panics) > 0 {
 		fail("C15:panic " + strings.ReplaceAll(r.panics[0], " ", "_"))
 	}
+	if closeReturned && !done0 {
+		fail("C15:done-not-closed-after-close-returned")
+	}
 	if readEnded && (!connDone || !r.watchRet) {
 		fail("C15:teardown-after-transport-end done=" + fmt.Sprint(connDone) + " watch=" + fmt.Sprint(r.watchRet))
 	}
 	// C16: unsolicited PDUs exactly once and in order (as far as Watch got), nack per bad frame with positive sequence
 	var gotUnsol []string
+	expected := map[string]bool{}
+	for _, e := range fedUnsol {
+		expected[e] = true
+	}
 	for _, d := range r.delivered {
-		if strings.Contains(d, "p") {
+		if strings.Contains(d, "p") || expected[d] {
 			gotUnsol = append(gotUnsol, d)
 		}
 	}
@@ -668,8 +725,8 @@ func opConn(args []string) (out string) {
 	r.tr.closed = true
 	r.tr.cond.Broadcast()
 	go r.cancelAll()
-	return fmt.Sprintf("callers=%s wire=%s delivered=%s watch=%s done=%v qclosed=%v panic=%v",
-		strings.Join(cs, " "), show(wire), show(r.delivered), watch, connDone, r.qclosed, len(r.panics) > 0) + marker
+	return fmt.Sprintf("callers=%s wire=%s delivered=%s watch=%s done0=%v done=%v qclosed=%v panic=%v",
+		strings.Join(cs, " "), show(wire), show(r.delivered), watch, done0, connDone, r.qclosed, len(r.panics) > 0) + marker
 }
 
 // ---------------------------------------------------------------- generators
@@ -689,6 +746,7 @@ type connProfile struct {
 	drainPct            int
 	events              int
 	frag                bool
+	raw                 bool
 }
 
 // genConnScenario builds one scenario line.  It tracks enough abstract state to avoid the situations in which Go's
@@ -875,6 +933,29 @@ func genConnScenario(r *gen.Rng, p connProfile) string {
 					watchGone, offeringBlocked = true, false
 				}
 			}
+		case choice < 70+p.unsolPct+p.badPct && p.raw && r.Chance(50):
+			// a valid frame of a random type with damaged body octets (framing and command_id intact)
+			if connDone && drain && !watchGone {
+				continue
+			}
+			frame := rawMutatedFrame(r, int32(newSeq()))
+			unsolK++
+			ev = append(ev, fmt.Sprintf("raw:%d:%s", unsolK, canon.Hex(frame)))
+			if pp, err := pdu.ReadPDU(bytes.NewReader(frame)); err == nil {
+				if !drain && !watchGone {
+					offeringBlocked = true
+					if connDone {
+						watchGone, offeringBlocked = true, false
+					}
+				}
+			} else if pp == nil {
+				if !offeringBlocked {
+					readEnded, watchGone, connDone = true, true, true
+					markReturnedByDone()
+				}
+			} else if connDone && !offeringBlocked {
+				watchGone = true
+			}
 		case choice < 70+p.unsolPct+p.badPct:
 			unsolK++
 			ev = append(ev, fmt.Sprintf("bad:%d:%d", r.Pick(newSeq(), newSeq(), 0, -5), unsolK))
@@ -1044,15 +1125,15 @@ func connInterleavings2(emit func(string)) {
 func init() {
 	gens["C05"] = func(r *gen.Rng, tier string, emit func(string)) {
 		connInterleavings2(emit)
-		p := connProfile{submit: 5, unsolPct: 10, events: 16}
-		for i := 0; i < scale(tier, 250, 4000); i++ {
+		p := connProfile{submit: 5, unsolPct: 10, drainPct: 6, events: 16}
+		for i := 0; i < scale(tier, 250, 1500); i++ {
 			p.submit = r.Range(1, 6)
 			p.events = r.Range(6, 22)
 			emit(genConnScenario(r, p))
 		}
 	}
 	gens["C14"] = func(r *gen.Rng, tier string, emit func(string)) {
-		for i := 0; i < scale(tier, 200, 3000); i++ {
+		for i := 0; i < scale(tier, 200, 1200); i++ {
 			emit(genConnScenario(r, connProfile{submit: r.Range(0, 3), send: r.Range(1, 5), badSeqPct: 25, badPct: 8, teardownPct: 6, events: r.Range(6, 20)}))
 		}
 		for i := 0; i < scale(tier, 6, 60); i++ {
@@ -1060,13 +1141,13 @@ func init() {
 		}
 	}
 	gens["C15"] = func(r *gen.Rng, tier string, emit func(string)) {
-		for i := 0; i < scale(tier, 300, 5000); i++ {
+		for i := 0; i < scale(tier, 300, 1500); i++ {
 			emit(genConnScenario(r, connProfile{submit: r.Range(0, 3), send: r.Range(0, 1), close: r.Range(0, 2), unsolPct: 8, badPct: 4, drainPct: 6, teardownPct: 12, events: r.Range(4, 18)}))
 		}
 	}
 	gens["C16"] = func(r *gen.Rng, tier string, emit func(string)) {
-		for i := 0; i < scale(tier, 300, 5000); i++ {
-			emit(genConnScenario(r, connProfile{submit: r.Range(0, 3), unsolPct: 16, badPct: 10, drainPct: 4, teardownPct: 0, events: r.Range(5, 24), frag: true}))
+		for i := 0; i < scale(tier, 300, 1500); i++ {
+			emit(genConnScenario(r, connProfile{submit: r.Range(0, 3), unsolPct: 14, badPct: 14, drainPct: 4, teardownPct: 3, events: r.Range(5, 24), frag: true, raw: true}))
 		}
 	}
 }
@@ -1084,9 +1165,10 @@ type burstConn struct {
 func (c *burstConn) Read(p []byte) (int, error) { select {} }
 func (c *burstConn) Write(p []byte) (int, error) {
 	c.mu.Lock()
-	c.writes = append(c.writes, append([]byte(nil), p...))
 	c.count++
 	mine := c.count
+	slot := len(c.writes)
+	c.writes = append(c.writes, nil)
 	c.cond.Broadcast()
 	deadline := time.Now().Add(300 * time.Microsecond)
 	for c.count == mine && time.Now().Before(deadline) {
@@ -1094,6 +1176,8 @@ func (c *burstConn) Write(p []byte) (int, error) {
 		time.Sleep(20 * time.Microsecond)
 		c.mu.Lock()
 	}
+	// the octets are consumed at the END of the call (io.Writer lets the callee read p until it returns)
+	c.writes[slot] = append([]byte(nil), p...)
 	c.mu.Unlock()
 	return len(p), nil
 }
@@ -1117,9 +1201,10 @@ func opConnBurst(args []string) string {
 	tr.cond = sync.NewCond(&tr.mu)
 	conn := smpp.NewConn(context.Background(), tr)
 	type call struct {
-		p    interface{}
-		want []byte
-		bad  bool
+		p            interface{}
+		want         []byte
+		bad          bool
+		marshalFails bool
 	}
 	plan := make([][]call, g)
 	seq := int32(1)
@@ -1132,6 +1217,7 @@ func opConnBurst(args []string) string {
 			if bad {
 				s = int32(rng.Pick(0, -1, -77))
 			}
+			unmarshalable := !bad && rng.Chance(8)
 			switch rng.Intn(4) {
 			case 0:
 				p = &pdu.EnquireLink{Header: pdu.Header{Sequence: s}}
@@ -1143,8 +1229,12 @@ func opConnBurst(args []string) string {
 			default:
 				p = &pdu.DataSM{Header: pdu.Header{Sequence: s}, Tags: pdu.Tags{0x0424: rng.Bytes(rng.Pick(1, 10, 4090, 4100))}}
 			}
-			c := call{p: p, bad: bad}
-			if !bad {
+			if unmarshalable {
+				// a value Marshal refuses (TLV longer than its length field): the call fails, nothing may reach the transport
+				p = &pdu.DataSM{Header: pdu.Header{Sequence: s}, Tags: pdu.Tags{0x0424: make([]byte, 0x10000)}}
+			}
+			c := call{p: p, bad: bad || unmarshalable, marshalFails: unmarshalable}
+			if !c.bad {
 				c.want = frameOf(p)
 			}
 			plan[i] = append(plan[i], c)
@@ -1168,8 +1258,11 @@ func opConnBurst(args []string) string {
 			<-start
 			for _, c := range plan[i] {
 				err := conn.Send(c.p)
-				if c.bad && err != pdu.ErrInvalidSequence {
+				if c.bad && !c.marshalFails && err != pdu.ErrInvalidSequence {
 					fail("C14:non-positive-sequence-not-refused")
+				}
+				if c.marshalFails && err == nil {
+					fail("C14:unmarshalable-pdu-sent")
 				}
 				if !c.bad && err != nil {
 					fail("C14:send-failed")
@@ -1211,4 +1304,25 @@ func opConnBurst(args []string) string {
 		}
 	}
 	return fmt.Sprintf("burst goroutines=%d calls=%d writes=%d", g, g*per, len(tr.writes)) + marker
+}
+
+// rawMutatedFrame: a representable PDU of a random type, marshalled, then damaged in its body; the header keeps a
+// known command_id, the given sequence number and the real length.
+func rawMutatedFrame(r *gen.Rng, seq int32) []byte {
+	for {
+		f, _ := validFrame(r, gen.Representable)
+		if len(f) > 260 {
+			continue
+		}
+		id := be32(f[4:])
+		g := mutate(r, f, true)
+		if len(g) < 16 || len(g) > 400 {
+			continue
+		}
+		putBE32(g[4:], id)
+		putBE32(g[8:], 0)
+		putBE32(g[12:], uint32(seq))
+		putBE32(g, uint32(len(g)))
+		return g
+	}
 }
